@@ -1,1 +1,74 @@
-From LV Require Import Circuit.Model.
+(* C07 — non-vacuity: the hypotheses of the theorems are met by concrete,
+   non-trivial runs (evaluated by vm_compute; these are examples, not the
+   theorems). *)
+From stdpp Require Import gmap.
+From LV Require Import Circuit.Model Circuit.Proofs Circuit.Props.
+Local Open Scope N_scope.
+
+Definition k1 : key := (1, 0).
+Definition o1 : key := (2, 0).
+Definition o2 : key := (2, 1).
+
+(* commit k1, open, settle (close), delete, commit k1 again: two Add decisions
+   and the delete in between *)
+Definition ins_lifecycle : list input :=
+  [ ICall 0 (CCommit [(k1, 5)]); IDisk 0 true; IMem 0;
+    ICall 0 (COpen [(k1, o1)]); IDisk 0 true; IMem 0;
+    ICall 1 (CClose o1); ICall 2 (CFail k1);
+    ICall 0 (CDelete [k1]); IDisk 0 true; IMem 0;
+    ICall 0 (CCommit [(k1, 6)]); IDisk 0 true; IMem 0;
+    ICall 0 (CFail k1) ].
+
+Example lifecycle_events :
+  let tr := (run init ins_lifecycle).2 in
+  map ev_add_decided tr !! 0%nat = Some [k1] /\
+  map ev_add_decided tr !! 11%nat = Some [k1] /\
+  map ev_removed tr !! 8%nat = Some [k1] /\
+  map ev_responded tr !! 6%nat = Some (Some k1) /\
+  map ev_responded tr !! 7%nat = Some None /\      (* second response refused: ErrCircuitClosing *)
+  map ev_responded tr !! 14%nat = Some (Some k1).   (* new incarnation after the delete *)
+Proof. vm_compute. repeat split; reflexivity. Qed.
+
+(* restart: keystone o2 of k=(1,1) is above the committed index 1 and is rolled
+   back -> the re-forward is FAILED; (1,0) keeps its keystone -> dropped;
+   circuit (3,0) of the fully closed channel 3 is purged *)
+Definition disk_ex : disk :=
+  Disk (<[(1,0):=5]> (<[(1,1):=6]> (<[(3,0):=7]> ∅))) (<[o1:=(1,0)]> (<[o2:=(1,1)]> ∅)).
+Definition rc_ex : rconf := RConf [(3, false)] [] [(2, false, None, 1)].
+
+Example restart_ex :
+  let '(m', d') := restart rc_ex disk_ex 0 in
+  classify (found_obj m' (1,1)) = AFail /\ classify (found_obj m' (1,0)) = ADrop /\
+  classify (found_obj m' (3,0)) = AAdd /\
+  d_ks d' !! o2 = None /\ d_ks d' !! o1 = Some (1,0) /\ d_adds d' !! (3,0) = None /\
+  size (pending m') = 2%nat /\ size (opened m') = 1%nat.
+Proof. vm_compute. repeat split; reflexivity. Qed.
+
+(* rollback hypothesis is satisfiable: a commit that yields, from a non-empty state *)
+Example rollback_ex :
+  let c := (run init [ICall 0 (CCommit [((1,0), 5)]); IDisk 0 true; IMem 0]).1 in
+  c_thr c !! 1 = None /\
+  exists c1 k, step c (ICall 1 (CCommit [((1,1), 6); ((1,0), 5)])) = (c1, OYield k).
+Proof. split; [vm_compute; reflexivity|]. eexists _, _. vm_compute. reflexivity. Qed.
+
+(* QUIRK of the code, kept in the model: a failed TrimOpenCircuits transaction
+   is NOT rolled back — memory has dropped the keystone, the disk still has it *)
+Example trim_failure_not_rolled_back :
+  let c := (run init [ICall 0 (CCommit [(k1, 5)]); IDisk 0 true; IMem 0;
+                      ICall 0 (COpen [(k1, o1)]); IDisk 0 true; IMem 0]).1 in
+  let c' := (run c [ICall 0 (CTrim 2 0); IDisk 0 false; IMem 0]).1 in
+  opened (c_mem c) !! o1 <> None /\ opened (c_mem c') !! o1 = None /\
+  d_ks (c_disk c') !! o1 = Some k1.
+Proof. vm_compute. repeat split; try reflexivity. discriminate. Qed.
+
+(* QUIRK: OpenCircuits does not check that the circuit already has a keystone;
+   a second keystone for the same incoming key leaves a dangling open circuit
+   after DeleteCircuits (the link never does this: one keystone per packet) *)
+Example double_keystone_dangles :
+  let c := (run init [ICall 0 (CCommit [(k1, 5)]); IDisk 0 true; IMem 0;
+                      ICall 0 (COpen [(k1, o1)]); IDisk 0 true; IMem 0;
+                      ICall 0 (COpen [(k1, o2)]); IDisk 0 true; IMem 0;
+                      ICall 0 (CDelete [k1]); IDisk 0 true; IMem 0]).1 in
+  pending (c_mem c) !! k1 = None /\ opened (c_mem c) !! o1 <> None /\
+  d_ks (c_disk c) !! o1 = Some k1.
+Proof. vm_compute. repeat split; try reflexivity. discriminate. Qed.
